@@ -51,6 +51,16 @@ def belt_configs(tier, seed):
     for typ, acc in itertools.product(["conveyor", "slotted"], [0, 1]):
         C.append({"type": typ, "acc": acc, "cap": 3, "slot": 2, "Q": Q, "T": 200, "arrivals": [0, 0, 9, 9, 9], "service": [-1],
                   "pattern": "concurrent", "concurrent": True})
+    # a stall that begins while a follower is in transit (or just entering), and a request for space that arrives
+    # during the stall: long stall, short stall, repeated stalls; geometry-relative instants
+    for typ, acc, (cap, slot) in itertools.product(["conveyor", "slotted"], [0, 1], [(3, 4), (4, 1), (5, 2), (4, 3)]):
+        L = cap * slot
+        for an, a in [("follower+request", [0, 2 * slot, L + slot]), ("entering", [0, L - slot // 2 if slot > 1 else L - 1, L + 2 * slot]),
+                      ("three", [0, slot, 3 * slot, L + 1, L + 2 * slot + 1])]:
+            for sn, sv in [("long", [4 * L, 0, 0, 0, 0]), ("short", [slot, 0, 2 * slot, 0]), ("again", [L, L, L, L]),
+                           ("odd", [slot + 1, 1, L + 1])]:
+                C.append({"type": typ, "acc": acc, "cap": cap, "slot": slot, "Q": Q, "T": 20 * L + 200, "arrivals": a, "service": sv,
+                          "pattern": "stall/%s/%s" % (an, sn)})
     for i, c in enumerate(C):
         c["name"] = "belt%04d" % i
     return C
